@@ -445,7 +445,8 @@ qb_log_target_format(int32_t target,
 	}
 	pthread_rwlock_unlock(&_formatlock);
 
-	if (output_buffer[output_buffer_idx - 1] == '\n') {
+	if (output_buffer_idx > 0 &&
+	    output_buffer[output_buffer_idx - 1] == '\n') {
 		output_buffer[output_buffer_idx - 1] = '\0';
 	} else {
 		output_buffer[output_buffer_idx] = '\0';
